@@ -24,6 +24,7 @@ REGISTRY = {
     "C16": ("bpmc.checks.c16", "C16"),
     "C17": ("bpmc.checks.c17", "C17"),
     "C18": ("bpmc.checks.c18", "C18"),
+    "C19": ("bpmc.checks.c19", "C19"),
     "C20": ("bpmc.checks.c20", "C20"),
 }
 
